@@ -163,6 +163,82 @@ def confirm(b, path, tier, seed, scratch):
     return None, txt
 
 
+def confirm_history(b, hist, tier, seed, scratch):
+    """The single case passes alone: replay the recorded run-up (the cases executed before it in the same process, then the case).
+    A deterministic failure of that sequence is a failure that needs state left behind by earlier calls."""
+    if not os.path.exists(hist):
+        return None, ''
+    kinds, txt = [], ''
+    for _ in range(3):
+        rc, kind, txt = replay_once(b, hist, tier, seed, scratch, timeout_s=120)
+        kinds.append(kind)
+    if all(k != 'ok' for k in kinds) and len(set(kinds)) == 1:
+        log('note: the case fails only after the cases that ran before it in the same process (sequence replay %s)' % hist)
+        return kinds[0], txt
+    return None, txt
+
+
+def split_history(data):
+    if data.startswith(b'TAPES\n'):
+        at, out = 6, []
+        while at + 4 <= len(data):
+            n = struct.unpack('<I', data[at:at + 4])[0]
+            at += 4
+            if at + n > len(data):
+                break
+            out.append(data[at:at + n])
+            at += n
+        return 'TAPES', out
+    if data.startswith(b'SWEEPSET\n'):
+        return 'SWEEPSET', [l for l in data[9:].split(b'\n') if l]
+    return None, []
+
+
+def join_history(fmt, items):
+    if fmt == 'TAPES':
+        return b'TAPES\n' + b''.join(struct.pack('<I', len(x)) + x for x in items)
+    return b'SWEEPSET\n' + b''.join(x + b'\n' for x in items)
+
+
+def minimise_history(b, path, kind, tier, seed, scratch, budget=60):
+    """drop cases from the run-up (never the last one) while the sequence still fails the same way"""
+    fmt, items = split_history(open(path, 'rb').read())
+    if not fmt or len(items) < 2:
+        return path
+    tmp = os.path.join(scratch, 'min.hist')
+    trials = 0
+
+    def fails(its):
+        nonlocal trials
+        trials += 1
+        open(tmp, 'wb').write(join_history(fmt, its))
+        rc, k, _ = replay_once(b, tmp, tier, seed, scratch, timeout_s=120)
+        return k == kind
+
+    # failing case last; first try short tails, then remove chunks of the remaining run-up
+    for keep in (1, 2, 4, 8, 16, 64):
+        if keep < len(items) - 1 and trials < budget and fails(items[-(keep + 1):]):
+            items = items[-(keep + 1):]
+            break
+    chunk = max(1, (len(items) - 1) // 2)
+    while chunk >= 1 and trials < budget and len(items) > 1:
+        i, changed = 0, False
+        while i < len(items) - 1 and trials < budget:
+            cand = items[:i] + items[min(i + chunk, len(items) - 1):]
+            if len(cand) < len(items) and fails(cand):
+                items, changed = cand, True
+            else:
+                i += chunk
+        if chunk == 1 and not changed:
+            break
+        chunk = chunk // 2 if chunk > 1 else 1
+        if chunk == 1 and not changed and len(items) <= 2:
+            break
+    out = path + '.min'
+    open(out, 'wb').write(join_history(fmt, items))
+    return out
+
+
 def minimise(b, path, kind, tier, seed, scratch, budget=120):
     data = open(path, 'rb').read()
     if data.startswith(b'SWEEP '):
@@ -361,9 +437,15 @@ def run_check(pid, tier, seed):
         seen_msgs = set()
         for stage, f in failures:
             kind, txt = confirm(b, f, tier, seed, scratch) if stage != 'extra' else ('violation', '')
+            final = f
+            if not kind and stage in ('sweep', 'pbt', 'fuzz'):
+                hist = os.path.join(os.path.dirname(f), 'fail.hist')
+                kind, txt = confirm_history(b, hist, tier, seed, scratch)
+                if kind:
+                    final = minimise_history(b, hist, kind, tier, seed, scratch)
+                    stage = 'history'
             if not kind:
                 continue
-            final = f
             if stage in ('pbt', 'fuzz') and kind in ('sanitizer', 'timeout') or stage == 'fuzz':
                 final = minimise(b, f, kind, tier, seed, scratch)
             data = open(final, 'rb').read()
